@@ -21,6 +21,8 @@ def gen_case(rng):
     mg, xg = rng.choice([(1, 3), (2, 4), (2, 5)])
     spec = rulesets.gen_spec(rng, with_m=False, labels=labels, n_base=rng.randint(1, 4), max_len=3, min_groups=mg, max_groups=xg,
                              pool=rng.choice(['counts', 'dyadic', 'decimal', 'random', 'equal', 'thirds']))
+    if rng.random() < 0.5:
+        rulesets.add_odd_alpha(rng, spec, k=4)      # letters with unusual case mappings, among them U+0130, the one letter the trainer stores although lower() alters it
     if place != 'absent':
         om = rulesets.gen_omen(rng, alphabet=rng.choice(['ab', 'abc']), max_len=None)
         lv = rng.sample(range(0, 7), rng.randint(1, 3))
@@ -197,8 +199,17 @@ def check_case(run, case, tier='quick'):
                 run.violation(f'--load ({variant}) raised {B.exc!r}', case, observed=B.stderr[-400:]); return
             if not judge(run, case, U, [(pa, True), (pb, False)], [pa[-1][1]], f'flags skip_brute={sb} all_lower={sc} given on the first run only, --load {variant} {argvB}'):
                 return
-            if sc and any(g != g.lower() for g in B.guesses):
-                run.violation('resumed all_lower session emitted upper-case guesses', case, observed=[g for g in B.guesses if g != g.lower()][:5]); return
+            if sc:
+                # the flag came back from the save file: every non-Markov guess of the resumed run is a word of the all-lower language
+                langl = oracles.Language(disk, sb, True)
+                allowed = set()
+                for bi, idx, pr, labs in langl.preterminals(cap=80000):
+                    if 'M' not in labs:
+                        allowed.update(langl.expand(labs, list(idx)))
+                starts = [p['first_guess'] for p in B.pops] + [len(B.guesses)]
+                bad = [g for p, a_, b_ in zip(B.pops, starts, starts[1:]) if p['key'][0] != ('M',) for g in B.guesses[a_:b_] if g not in allowed]
+                if bad:
+                    run.violation('resumed all_lower session emitted guesses outside the all-lower language (capitalised words?)', case, observed=bad[:5]); return
         nt = has_m and any(l[0] == 'A' for l in case['spec']['terms'])
         run.case(h(case['spec']) if nt else None)
         run.add_to_set('markov_placements', case['place'])
